@@ -68,12 +68,70 @@ def degenerate(rng, base, spec):
     return how
 
 
+def _loc_acts(idxs):
+    return [["rich", 10, [["_location", [2, i]]], [False] * 5] for i in idxs]
+
+
+def _cuwp_acts(idxs):
+    return [["rich", 11, [["_group", [1, 0]], ["_amount", [0, 1]], ["_unit", [1, 0]], ["_location", [2, 0]], ["_properties", [6, i]]],
+             [False] * 5] for i in idxs]
+
+
+def _switch_acts(idxs):
+    return [["rich", 13, [["_switch", [8, i]], ["_switch_action", [1, 4]]], [False] * 5] for i in idxs]
+
+
+def _trigs(acts):
+    return ["add_triggers", [{"conds": [], "acts": acts[k:k + 60], "players": [0]} for k in range(0, len(acts), 60)]]
+
+
+def boundary_cases(bases):
+    """deterministic scenarios sitting exactly on and one step beyond every table limit: the last slot of each
+    table pinned, the slot after it, slot 0, and exactly-full / one-too-many counts (from an empty synthetic base
+    and from each fixture)"""
+    out = []
+    for label, base in bases:
+        v = SC.SpecView(base)
+        used_cuwp = sum(1 for x in (v.by_name.get(b"UPUS") or [b""])[-1][:64] if x)
+        for idx in (1, 63, 64, 65, 0, 255):
+            spec = {"pool": {"locs": [[1, 1, 2, 2, None, None, [True] * 6]], "switches": [],
+                             "cuwps": [[7, 3, 5, 11, 0, [False] * 5, [True] * 5 + [False], [True] * 6 + [False], False, 0, idx]]},
+                    "ops": [_trigs(_cuwp_acts([0]))]}
+            out.append((f"{label}:cuwp-pinned-{idx}", base, spec))
+        for n in sorted({1, 64 - used_cuwp - 1, 64 - used_cuwp, 64 - used_cuwp + 1, 64, 65} - {0, -1}):
+            if n <= 0:
+                continue
+            spec = {"pool": {"locs": [[1, 1, 2, 2, None, None, [True] * 6]], "switches": [],
+                             "cuwps": [[1 + i, 9, 5, 1000 + i, 0, [False] * 5, [True] * 5 + [False], [True] * 6 + [False], False, 0, None]
+                                       for i in range(n)]},
+                    "ops": [_trigs(_cuwp_acts(range(n)))]}
+            out.append((f"{label}:cuwp-count-{n}(base uses {used_cuwp})", base, spec))
+        for idx in (1, 63, 64, 65, 254, 255, 256, 0):
+            spec = {"pool": {"locs": [[1, 1, 2, 2, "pinned", idx, [True] * 6]], "switches": [], "cuwps": []},
+                    "ops": [_trigs(_loc_acts([0]))]}
+            out.append((f"{label}:loc-pinned-{idx}", base, spec))
+        for n in (253, 254, 255, 256):
+            spec = {"pool": {"locs": [[i, i, i + 1, i + 1, None, None, [True] * 6] for i in range(n)], "switches": [], "cuwps": []},
+                    "ops": [_trigs(_loc_acts(range(n)))]}
+            out.append((f"{label}:loc-count-{n}", base, spec))
+        for idx in (0, 1, 254, 255, 256):
+            spec = {"pool": {"locs": [], "cuwps": [], "switches": [["pinned switch", idx]]}, "ops": [_trigs(_switch_acts([0]))]}
+            out.append((f"{label}:switch-pinned-{idx}", base, spec))
+        for n in (254, 255, 256, 257):
+            spec = {"pool": {"locs": [], "cuwps": [], "switches": [[f"sw{i}", None] for i in range(n)]},
+                    "ops": [_trigs(_switch_acts(range(n)))]}
+            out.append((f"{label}:switch-count-{n}", base, spec))
+    return out
+
+
 def run(ck: vlib.Check):
     n = 80 if ck.tier == "quick" else 3000
     ck.rule = ("authored scenarios pushed to the format's limits on valid bases: 17..100 conditions / 65..100 actions, "
                "integers at and beyond every field's range (256, 65536, 2^32, 2^40), indices outside the slot ranges "
                "(0, 64, 65, 256, 1000), 300 new locations / 70 unit-property sets / 300 switches, empty player sets, "
-               "empty triggers; every output that is produced at all is checked by an independent structural validator "
+               "empty triggers; plus a deterministic boundary family (last slot of each table pinned, one past it, slot 0; "
+               "exactly-full and one-too-many counts of locations / unit-property sets / switches, on fixtures and on an "
+               "empty synthetic map); every output that is produced at all is checked by an independent structural validator "
                "(sizes, 2400-multiples, string offsets, every written id refers to an existing non-empty entry, UPUS "
                "agrees) — the alternative is an exception. Implementation vs extracted pipeline model byte for byte. "
                "Distinct = distinct (base, scenario).")
@@ -82,6 +140,11 @@ def run(ck: vlib.Check):
     bs = R.bases(rng, 3 if ck.tier == "quick" else 30, ck.tier)
     cases = []
     hows = {}
+    fixed = [(n_, b) for n_, b in SC.fixtures() if "scx" in n_][:(1 if ck.tier == "quick" else 3)] + \
+            [("synthetic-empty", SC.MapGen(random.Random(5), "editor", nloc=0, all_sections=True, ntrig=1).build())]
+    for c in boundary_cases(fixed):
+        cases.append(c)
+        hows["boundary"] = hows.get("boundary", 0) + 1
     for i in range(n):
         label, base = bs[i % len(bs)]
         spec = A.gen_scenario(rng, base)
